@@ -1284,7 +1284,12 @@ def rx_bounds(ops, upto, nconn):
         if op[0] in ("connect", "accepterr"):
             ci += 1
         elif op[0] in ("send", "sendclose"):
+            upgraded = False
             for it in op[2]:
+                if upgraded and it["kind"] in ("normal", "starttls", "unbind"):
+                    continue    # written in the clear behind a StartTLS request in the same segment: never served
+                if it["kind"] == "starttls":
+                    upgraded = True
                 if it["kind"] in ("normal", "starttls", "unbind"):
                     reqs.setdefault(op[1], []).append(it)
                     if "W" in it["steps"] or "p" in it["steps"]:
